@@ -124,7 +124,7 @@ def run(tier: str) -> int:
         cases = [json.loads(l) for l in open(out)]
     finally:
         shutil.rmtree(tmp, ignore_errors=True)
-    stride = 13 if tier == "quick" else (7 if len(cases) > 100000 else 1)
+    stride = 13 if tier == "quick" else (5 if len(cases) > 50000 else 1)
     kinds = ("canonical", "gc", "fbmc")
     nrep = 0
     for ci, c in enumerate(cases):
